@@ -284,6 +284,19 @@ def check_prop(prop):
                 "replay": {"property": prop, "rule": v["rule"], "seq": v["seq"],
                            "case": bad.get(v["case"])},
             })
+        # the runs with the tracing integration on are runs of the same runner: its span-close
+        # waits add suspension points that plain runs do not have
+        tr = run_tracing_engine(tier)
+        trbad = {c["id"]: c for c in tr["bad_cases"]}
+        for v in tr["viols"]:
+            if v["prop"] != prop:
+                continue
+            violations.append({
+                "sig": f"{prop}:{v['rule']}",
+                "what": f"{v['rule']} (tracing run {v['case']}, record seq {v['seq']})",
+                "replay": {"property": prop, "rule": v["rule"], "seq": v["seq"],
+                           "case": trbad.get(v["case"])},
+            })
         mc = res["mc"]
         sc = res["sample_case"]
         coverage = {
@@ -294,8 +307,9 @@ def check_prop(prop):
             "exhaustive": True,
             "checker_cmd": "tlc -workers 8 -config MC_Runner_*.cfg MC_Runner.tla ; harness drive ; "
                            "tlc -workers 1 Trace_Runner.tla",
-            "traces_validated_against_impl": res["ncases"],
-            "trace_records": res["nrecords"],
+            "traces_validated_against_impl": res["ncases"] + tr["ncases"],
+            "runs_with_tracing_integration": tr["ncases"],
+            "trace_records": res["nrecords"] + tr["nrecords"],
             "schedules_from_tlc": res.get("schedules_from_tlc", 0),
             "schedules_from_tlc_not_followed_by_the_code": res.get("schedules_diverged", 0),
             "schedule_cases": res.get("schedule_cases", []),
@@ -334,7 +348,7 @@ def replay(prop, payload):
 # C20: tracing integration (one process per driven run: the subscriber is global)
 # ---------------------------------------------------------------------------
 
-NTRACING = {"quick": 96, "thorough": 3000}
+NTRACING = {"quick": 180, "thorough": 3000}
 
 
 def tracing_cases(n):
@@ -344,7 +358,12 @@ def tracing_cases(n):
     i = 0
     while len(cases) < n:
         i += 1
-        c = gen_cases.gen_case(rng, f"t{i}", rng.choice(["mixed", "retry", "limits", "serial"]))
+        if i % 3 == 0:
+            # (a third of the runs: the window in which a too early re-queued retry overlaps its
+            # failed attempt is one executor turn wide and depends on the order the gates are opened)
+            c = gen_cases.retry_overlap_case(rng, f"t{i}")
+        else:
+            c = gen_cases.gen_case(rng, f"t{i}", rng.choice(["mixed", "retry", "limits", "serial"]))
         if not c["expect"]["scen"]:
             continue
         c["cfg"]["tracing"] = True
@@ -376,12 +395,13 @@ def _one_tracing_run(args):
     return tout
 
 
-def check_c20(tier):
-    t0 = time.time()
+def run_tracing_engine(tier):
+    """Driven runs with the tracing integration on (one process per run), judged by ALL rules of the
+    monitor: the C20 rules decide C20, every other rule hit here is reported by its own property."""
     cached = cache_get("tracing", tier)
     if cached:
-        res = cached
-    else:
+        return cached
+    if True:
         import engine_runner_mc
         mc = engine_runner_mc.model_check_tracing(tier)
         build_harness()
@@ -415,6 +435,12 @@ def check_c20(tier):
                "bad_cases": [c for c in cases if c["id"] in bad_ids][:100],
                "sample": cases[1]}
         cache_put("tracing", tier, res)
+    return res
+
+
+def check_c20(tier):
+    t0 = time.time()
+    res = run_tracing_engine(tier)
     bad = {c["id"]: c for c in res["bad_cases"]}
     violations = []
     other = collections.Counter()
